@@ -61,6 +61,7 @@ type instRT struct {
 	watchCalls int
 	healthN    int
 	logCount   map[string]int
+	pointCount map[string]int
 	healthNA   atomic.Int64 // lean mode
 	curObj     atomic.Pointer[objRT]
 	startSem   chan struct{}
@@ -517,7 +518,9 @@ func (s *Sim) doAction(a *Action) {
 			last := o.startCancel
 			var pend []context.CancelFunc
 			for _, c := range o.pendingCancels {
-				pend = append(pend, c)
+				if !a.OnlyRunning {
+					pend = append(pend, c)
+				}
 			}
 			s.mu.Unlock()
 			if last == nil && len(pend) == 0 {
@@ -810,10 +813,14 @@ func Run(t *testing.T, p *Plan) *Trace {
 		tr.StartAt = s.t0
 		s.store = refkv.New(p.StoreTTL(), time.Now)
 		for i := range p.Instances {
-			s.insts = append(s.insts, &instRT{s: s, idx: i, spec: &p.Instances[i], opCount: map[string]int{}, logCount: map[string]int{}, startSem: make(chan struct{}, 1)})
+			s.insts = append(s.insts, &instRT{s: s, idx: i, spec: &p.Instances[i], opCount: map[string]int{}, logCount: map[string]int{}, pointCount: map[string]int{}, startSem: make(chan struct{}, 1)})
 		}
 		leader.VerifRandHook = s.dice
 		defer func() { leader.VerifRandHook = nil }()
+		if len(p.Stalls) > 0 {
+			leader.VerifPointHook = s.point
+			defer func() { leader.VerifPointHook = nil }()
+		}
 		vclock.Store(0)
 
 		var steps []step
@@ -1091,4 +1098,48 @@ func (s *Sim) probeTarget(inst int) *objRT {
 		}
 	}
 	return s.current(0)
+}
+
+// point: see Plan.Stalls.
+func (s *Sim) point(name, id string) {
+	var d time.Duration
+	var cancelOn *objRT
+	s.mu.Lock()
+	for _, in := range s.insts {
+		if in.spec.ID != id {
+			continue
+		}
+		if in.pointCount == nil {
+			in.pointCount = map[string]int{}
+		}
+		n := in.pointCount[name]
+		in.pointCount[name] = n + 1
+		for _, st := range s.plan.Stalls {
+			if st.Inst == in.idx && st.Point == name && st.N == n {
+				d = st.D
+				s.tr.StallsHit++
+				if st.CancelRun && len(in.objs) > 0 {
+					cancelOn = in.objs[len(in.objs)-1]
+				}
+			}
+		}
+		break
+	}
+	s.mu.Unlock()
+	if cancelOn != nil {
+		s.mu.Lock()
+		c := cancelOn.startCancel
+		s.mu.Unlock()
+		if c != nil {
+			r := s.apiBegin(cancelOn, "CancelStartContext", nil)
+			s.mu.Lock()
+			cancelOn.started = false
+			s.mu.Unlock()
+			c()
+			s.apiEnd(cancelOn, r, true, nil)
+		}
+	}
+	if d > 0 {
+		s.sleepI(d)
+	}
 }
